@@ -15,5 +15,9 @@ pub mod run;
 pub mod sink;
 pub mod strict;
 pub mod util;
+pub mod worker;
 
 pub use run::{Mode, Run};
+
+#[global_allocator]
+static GLOBAL: worker::CountingAlloc = worker::CountingAlloc;
